@@ -140,6 +140,4 @@ mod verif_c08k {
     h!(c08t_k_next_n10, 18, next_k::<16>(10));
     h!(c08t_k_next_n11, 34, next_k::<32>(11));
     h!(c08t_k_next_n12, 66, next_k::<64>(12));
-    h!(c08t_k_next_n13, 130, next_k::<128>(13));
-    h!(c08t_k_next_n14, 258, next_k::<256>(14));
 }
